@@ -164,7 +164,7 @@ def runStep1 (s : RunSt) (line : String) : RunSt × String :=
   | "counters" :: ws =>
     match kvNat ws "t" with
     | some t =>
-      (s, fmtCounters (countersL t s.st))
+      (s, fmtCounters (countersL t s.st) ++ s!" reads={s.st.length * readsCounter}")
     | none => (s, "bad-op")
   | _ => (s, "bad-op")
 
